@@ -58,7 +58,7 @@ def main():
             d = json.loads(l)
             done.add((d["mutant"], d["check"]))
     for n in order:
-        todo = [c for c in ALL if (n, c) not in done]
+        todo = [c for c in (([n[:3]]) if "--own" in args else ALL) if (n, c) not in done]
         if not todo:
             continue
         st = sh(["git", "-C", REPO, "status", "--porcelain", "--untracked-files=no"]).stdout.strip()
